@@ -347,3 +347,22 @@ Proof.
     destruct HO as [_ HO]. apply tpmem_false in HO. rewrite HO in NA. discriminate.
 Qed.
 End C01own.
+
+(* ------------------------------------------------------------------ bounded progress of the partition lookups *)
+(* once the attempt counter of the batch (shared by its lookups and its produce requests) has reached the limit, a
+   lookup that comes back to its loop head never asks for metadata again: it ends, with the partition if the metadata
+   is good now, else with the topic's error (producer.py:307-318) *)
+Lemma lookup_quota : forall c s x, c_max c <= attempts s -> exists r, lookup_head c s x = (s, [], LDone r).
+Proof.
+  intros c s x H. unfold lookup_head. destruct (cache_get (cache s) (s_topic x)) as [err hp].
+  destruct (err =? 0); [eexists; reflexivity|].
+  replace (c_max c <=? attempts s) with true by (symmetry; apply Z.leb_le; exact H). eexists; reflexivity.
+Qed.
+
+(* a lookup whose load came back with the topic still in error uses up one attempt *)
+Lemma lookup_failure_counts : forall c s x s' o l, stopping s = false -> lookup_loaded c s x = (s', o, l) ->
+  (exists r, l = LDone r /\ s' = s) \/ (attempts s' = attempts s + 1 /\ exists tid, l = LTimer tid).
+Proof.
+  unfold lookup_loaded; intros c s x s' o l St H. rewrite St in H. destruct (cache_get (cache s) (s_topic x)) as [err hp].
+  destruct (err =? 0); inv H; [left; eauto|right; simpl; eauto].
+Qed.
